@@ -1664,7 +1664,7 @@ func sameMapValue(a, b ssa.Value) bool {
 // must be the same expression in all handlers that have one: `prev && cur` in one and `prev || cur` in another makes
 // WIRE report where WIRE_JSON is silent.
 func c04SiblingSkipGuards(c *Ctx, rule string) {
-	c.Rule(rule, "the map-entry skip guard is the same expression in every sibling handler", 3)
+	c.Rule(rule, "the map-entry skip guard is the same expression in every sibling handler", 2)
 	p := c.P
 	pk := p.Pkg(pkgCheckHandle)
 	if pk == nil {
@@ -1703,7 +1703,8 @@ func c04SiblingSkipGuards(c *Ctx, rule string) {
 			return true
 		})
 	}
-	if len(sites) < 3 {
+	// (siblings merged into one helper share their guard by construction: two sites are enough to compare)
+	if len(sites) < 2 {
 		c.Fail(rule, "anchor", token.NoPos, "only %d map-entry skip guards found in the handlers", len(sites))
 		return
 	}
